@@ -21,8 +21,8 @@ CLAIMED = {
    text="at every .await of the receive path the invariant that the next receive requires, with unchanged delivered count and wire, is asserted and discharged for every loop iteration and for any content of the lent spare buffer tail",
    note="assumed: the transport's read future is itself cancel safe (trait obligation); scheduling abstracted to 'the future may be dropped at any await'"),
  "C08": dict(cat="proof", ref="5 C08", tech=TECH,
-   text="per-call step only: Server::handle_call writes nothing for a oneway call, hands back a stream without writing, or performs exactly one write of one final reply / error frame on the calling connection's writer",
-   note="NOT decided: ordering across calls, multi-connection routing and exactly-once handling of pipelined calls live in the select_biased! loop of Server::run, outside any contract within reach; service answer arbitrary; send_* via contracts proved in write_path"),
+   text="per-call step: Server::handle_call writes nothing for a oneway call, hands back a stream without writing, or performs exactly one write of one final reply / error frame on the calling connection's writer; plus the connection bookkeeping statements of Server::run (extracted fragments): after a call the connection is kept (Ok(None)), parked with its stream, or dropped on read/write failure - exactly that connection, no other moves; after a stream item nothing moves, at stream end exactly that connection returns to the call list, on write failure only that subscription is dropped",
+   note="NOT decided: ordering across iterations and multi-connection routing live in the select_biased! loop of Server::run (macro, awaits, unsafe reborrow) - only its straight-line statements are under contract; service answer arbitrary; send_* via contracts proved in write_path"),
  "C18": dict(cat="model_checking", ref="5 C18", tech="bounded stand-in: Kani/CBMC harnesses over the real select_all.rs via #[path], n <= 5 futures, all other inputs fully symbolic",
    text="BOUNDED (n <= 5 futures, quick n <= 3): for every start index (all 2^64+1 Option<usize> values) and every readiness vector the real SelectAll::poll polls in rotation order s, s+1, ... each at most once, returns the first ready one, Pending iff none; and with the server's 'start at winner+1' glue the same connection does not win twice while another is ready",
    note="bounded in n, labelled bounded, never counted as proved; Verus cannot ingest impl Future for SelectAll; Server::run glue replicated in the harness; swap_remove reordering across closures not covered"),
